@@ -116,6 +116,7 @@ class Engine(object):
         self._dirty = True
         self._has_bitops = False
         self.var_bounds = {}
+        self._nonneg = {}
         if self.mode == 'symbolic':
             self.solver.reset()
             self._limit(self.solver, self.timeout_ms)
@@ -239,6 +240,75 @@ class Engine(object):
         self._add(cond if d.taken else z3.Not(cond), dirty=False)
         self._dirty = False
         return d.taken
+
+    def _interval_decide(self, cond):
+        """Decide an integer comparison from the declared variable bounds alone (no solver).
+
+        Sound: the bounds used are asserted in the path condition. Deterministic, so replay
+        of a decision trace takes the same shortcut.
+        """
+        from . import bv
+        try:
+            k = cond.decl().kind()
+            neg = False
+            if k == z3.Z3_OP_NOT:
+                neg = True
+                cond = cond.arg(0)
+                k = cond.decl().kind()
+            if k not in (z3.Z3_OP_LE, z3.Z3_OP_LT, z3.Z3_OP_GE, z3.Z3_OP_GT, z3.Z3_OP_EQ):
+                return None
+            a, b = cond.arg(0), cond.arg(1)
+            if not z3.is_int(a):
+                return None
+            tr = bv.Translator(self.var_bounds)
+            (alo, ahi), (blo, bhi) = tr.interval(a), tr.interval(b)
+        except (bv.NotTranslatable, z3.Z3Exception, AttributeError):
+            return None
+        res = None
+        if k == z3.Z3_OP_LE:
+            res = True if ahi <= blo else (False if alo > bhi else None)
+        elif k == z3.Z3_OP_LT:
+            res = True if ahi < blo else (False if alo >= bhi else None)
+        elif k == z3.Z3_OP_GE:
+            res = True if alo >= bhi else (False if ahi < blo else None)
+        elif k == z3.Z3_OP_GT:
+            res = True if alo > bhi else (False if ahi <= blo else None)
+        elif k == z3.Z3_OP_EQ:
+            res = False if (ahi < blo or alo > bhi) else None
+        if res is None:
+            return None
+        return (not res) if neg else res
+
+    def known_nonneg(self, t):
+        """Cheap syntactic proof that term t >= 0 (memoised per path); False = unknown."""
+        memo = self._nonneg
+        i = t.get_id()
+        r = memo.get(i)
+        if r is not None:
+            return r
+        r = False
+        try:
+            if z3.is_int_value(t):
+                r = t.as_long() >= 0
+            elif z3.is_app(t):
+                k = t.decl().kind()
+                if k == z3.Z3_OP_UNINTERPRETED and t.num_args() == 0:
+                    b = self.var_bounds.get(t.decl().name())
+                    r = bool(b and b[0] is not None and b[0] >= 0)
+                elif k in (z3.Z3_OP_ADD, z3.Z3_OP_MUL):
+                    r = all(self.known_nonneg(c) for c in t.children())
+                elif k in (z3.Z3_OP_IDIV, z3.Z3_OP_DIV):
+                    d = t.arg(1)
+                    r = z3.is_int_value(d) and d.as_long() > 0 and self.known_nonneg(t.arg(0))
+                elif k == z3.Z3_OP_MOD:
+                    d = t.arg(1)
+                    r = z3.is_int_value(d) and d.as_long() > 0
+                elif k == z3.Z3_OP_ITE:
+                    r = self.known_nonneg(t.arg(1)) and self.known_nonneg(t.arg(2))
+        except z3.Z3Exception:
+            r = False
+        memo[i] = r
+        return r
 
     def concretize(self, x, what='value'):
         """Return a concrete int for x, forking over every feasible value."""
@@ -687,7 +757,7 @@ class Engine(object):
                 raise ZeroDivisionError('integer division or modulo by zero')
             ta = zint(a)
             if b > 0:
-                return mk_int(ta / b), mk_int(ta % b)
+                return mk_int(sym._div_const(ta, b)), mk_int(ta % b)
             # floor(a / b) for b < 0 is floor(-a / -b)
             q = (-ta) / (-b)
             return mk_int(q), mk_int(ta - q * b)
